@@ -170,12 +170,23 @@ def _radius_generating_fns(
     each_length: np.ndarray,
     parents: np.ndarray,
     types: np.ndarray,
+    point_types: Optional[np.ndarray] = None,
 ) -> List[Callable]:
-    """For all branches in a cell, returns callable that return radius given loc."""
+    """For all branches in a cell, returns callable that return radius given loc.
+
+    `point_types` are the SWC types of the traced points. If given, a branch whose first
+    point (the point it shares with its parent) is of another type than the branch does
+    not interpolate from the radius of that point, also if the branch starts at the root
+    point (i.e. `parents[i] == -1`, e.g. a dendrite on the first point of a soma).
+    """
     radius_fns = []
     for i, branch in enumerate(all_branches):
         rads_in_branch = radiuses[np.asarray(branch) - 1]
-        if parents[i] > -1 and types[i] != types[parents[i]]:
+        if point_types is not None and len(branch) > 1:
+            starts_with_other_type = point_types[branch[0] - 1] != types[i]
+        else:
+            starts_with_other_type = parents[i] > -1 and types[i] != types[parents[i]]
+        if starts_with_other_type:
             # We do not want to linearly interpolate between the radius of the previous
             # branch if a new type of neurite is found (e.g. switch from soma to
             # apical). From looking at the SWC from n140.swc I believe that this is
